@@ -11,10 +11,10 @@ SLOTS = {
     'set_primal', 'explored', 'gap',
     # diagrams
     'compile', 'is_exact', 'best_exact_value', 'best_exact_solution', 'drain_cutset', 'default', '_clear', '_best_value', '_best_solution',
-    '_best_exact_value', '_best_exact_solution', '_best_path', '_best_path_partial_borrow', '_compile', '_initialize', '_finalize', '_drain_cutset',
+    '_best_exact_value', '_best_exact_solution', '_best_path_partial_borrow', '_compile', '_initialize', '_finalize', '_drain_cutset',
     '_compute_local_bounds', '_compute_thresholds', '_maybe_update_cache', '_finalize_cutset', '_compute_last_exact_layer_cutset',
     '_compute_frontier_cutset', '_finalize_layers', '_find_best_node', '_finalize_exact', '_has_exact_best_path', '_move_to_next_layer',
-    '_filter_with_dominance', '_filter_with_cache', '_branch_on', '_squash_if_needed', '_maybe_save_lel', '_restrict', '_relax',
+    '_filter_with_dominance', '_filter_with_cache', '_branch_on', '_squash_if_needed', '_restrict', '_relax',
     'as_graphviz', 'node', 'edges_of', 'add_terminal_node', 'edge',
     # flags
     'new_exact', 'new_relaxed', 'is_relaxed', 'is_marked', 'is_cutset', 'is_above_cutset', 'is_deleted', 'is_pruned_by_cache', 'set_exact',
@@ -24,6 +24,9 @@ SLOTS = {
     'push', 'pop', 'len', 'is_empty', 'process_action', 'position', 'compare_at_pos', 'bubble_up', 'bubble_down', 'parent', 'max_child_of',
     'left_child', 'right_child', 'is_root', 'is_left', 'compare', 'max_width',
 }
+# anchors by name that are nevertheless inlined for ONE owner: the rules that concern them are phrased on their effects in the caller,
+# so that folding the helper into its caller by hand changes nothing
+SOFT = (('sequential::SequentialSolver', 'abort_search'),)
 MAX_BLOCKS = 60
 
 
@@ -56,7 +59,7 @@ def inlinable(doc, name, children):
     h = doc['bodies'].get(name)
     if h is None or h['kind'] not in ('fn', 'method'):
         return False
-    if h.get('name') in SLOTS:
+    if h.get('name') in SLOTS and not any((h.get('impl_self_adt') or '').endswith(o) and h.get('name') == n for (o, n) in SOFT):
         return False
     if h.get('impl_trait') or h.get('trait_default'):
         return False
